@@ -2,6 +2,7 @@
 cache directory.  JSON lines on stdin/stdout."""
 import importlib
 import json
+import os
 import sys
 import warnings
 
@@ -14,32 +15,63 @@ def main():
     from vf.engines import memfuncs as MF
     from vf.engines import values as V
 
-    assert joblib.__file__.startswith("/repo/"), joblib.__file__
+    import os
+    assert joblib.__file__.startswith(os.path.realpath(os.environ.get("VF_REPO", "/repo")) + "/"), joblib.__file__
     for line in sys.stdin:
-        req = json.loads(line)
-        out = {}
-        try:
-            if req["scratch"] not in sys.path:
-                sys.path.insert(0, req["scratch"])
-            importlib.invalidate_caches()
-            mod = importlib.import_module(req["module"])
-            MF.IGNORE.clear()
-            MF.IGNORE.update({k: set(v) for k, v in req["ignore"].items()})
-            if req["carrier"] == "f":
-                func = getattr(mod, "f_%d" % req["f"])
-            else:
-                func = getattr(mod.K("A" if req["carrier"] == "mA" else "B"), "m_%d" % req["f"])
-            mem = joblib.Memory(req["location"], compress=req["compress"], verbose=0)
-            wrapped = mem.cache(func, ignore=list(req["jl_ignore"]))
-            args = [V.build(a, perm_seed=req["perm"]) for a in req["args"]]
-            kwargs = {k: V.build(v, perm_seed=req["perm"]) for k, v in req["kwargs"].items()}
-            before = len(MF.EXEC_LOG)
-            val = wrapped(*args, **kwargs)
-            out = {"value": list(val) if isinstance(val, tuple) else repr(val), "executed": len(MF.EXEC_LOG) - before}
-        except Exception as e:
-            out = {"raised": "%s: %s" % (type(e).__name__, str(e)[:300])}
-        sys.stdout.write(json.dumps(out) + "\n")
+        # every request is served by a child forked from this pristine parent (joblib imported, Memory never used):
+        # the property speaks of FRESH processes, so no in-memory joblib state may survive from one request to the next
+        r, w = os.pipe()
+        pid = os.fork()
+        if pid == 0:
+            os.close(r)
+            try:
+                out = handle(json.loads(line), joblib, MF, V)
+            except BaseException as e:
+                out = {"raised": "server-child %s: %s" % (type(e).__name__, str(e)[:300])}
+            os.write(w, json.dumps(out).encode())
+            os._exit(0)
+        os.close(w)
+        chunks = []
+        while True:
+            b = os.read(r, 65536)
+            if not b:
+                break
+            chunks.append(b)
+        os.close(r)
+        os.waitpid(pid, 0)
+        sys.stdout.write((b"".join(chunks).decode() or json.dumps({"raised": "server child died"})) + "\n")
         sys.stdout.flush()
+
+
+def handle(req, joblib, MF, V):
+    import importlib
+    try:
+        if req["scratch"] not in sys.path:
+            sys.path.insert(0, req["scratch"])
+        importlib.invalidate_caches()
+        mod = importlib.import_module(req["module"])
+        MF.IGNORE.clear()
+        MF.IGNORE.update({k: set(v) for k, v in req["ignore"].items()})
+        is_async = req["carrier"] == "as"
+        if req["carrier"] == "f":
+            func = getattr(mod, "f_%d" % req["f"])
+        elif is_async:
+            func = getattr(mod, "a_%d" % req["f"])
+        else:
+            func = getattr(mod.K("A" if req["carrier"] == "mA" else "B"), "m_%d" % req["f"])
+        mem = joblib.Memory(req["location"], compress=req["compress"], verbose=0)
+        wrapped = mem.cache(func, ignore=list(req["jl_ignore"]))
+        args = [V.build(a, perm_seed=req["perm"]) for a in req["args"]]
+        kwargs = {k: V.build(v, perm_seed=req["perm"]) for k, v in req["kwargs"].items()}
+        before = len(MF.EXEC_LOG)
+        if is_async:
+            import asyncio
+            val = asyncio.run(wrapped(*args, **kwargs))
+        else:
+            val = wrapped(*args, **kwargs)
+        return {"value": list(val) if isinstance(val, tuple) else repr(val), "executed": len(MF.EXEC_LOG) - before}
+    except Exception as e:
+        return {"raised": "%s: %s" % (type(e).__name__, str(e)[:300])}
 
 
 if __name__ == "__main__":
